@@ -265,14 +265,22 @@ class Engine:
             e = e.e
             if isinstance(e, bool):
                 return e
+        k0 = e.get_id()
+        hit = self.cache.get(k0)
+        if hit is not None and hit[0].eq(e):
+            return hit[1]
+        e0 = e
         e = z3.simplify(e)
         if z3.is_true(e):
+            self.cache[k0] = (e0, True)
             return True
         if z3.is_false(e):
+            self.cache[k0] = (e0, False)
             return False
         k = e.get_id()
         hit = self.cache.get(k)
         if hit is not None and hit[0].eq(e):
+            self.cache[k0] = (e0, hit[1])
             return hit[1]
         self.stats["decisions"] += 1
         if self.pos < len(self.prefix):
@@ -296,6 +304,7 @@ class Engine:
         self.trace.append((ch, e))
         self.cons.append(e if ch else z3.Not(e))
         self.cache[k] = (e, ch)
+        self.cache[k0] = (e0, ch)
         return ch
 
     def feasible(self, e):
@@ -418,6 +427,18 @@ def rawb(e):
 # SymStr
 # --------------------------------------------------------------------------------------
 
+_CONST_CACHE = {}
+_CH_CACHE = {}
+_EQ_CACHE = {}
+
+
+def _ch_const(code):
+    c = _CH_CACHE.get(code)
+    if c is None:
+        c = _CH_CACHE[code] = Ch(code)
+    return c
+
+
 POISON = "\x00SYM\x00"
 _WS = " \t\n\r\x0b\x0c"
 
@@ -441,9 +462,15 @@ class SymStr(str):
     def const(s):
         if isinstance(s, SymStr):
             return s
+        r = _CONST_CACHE.get(s)
+        if r is not None:
+            return r
         if not isinstance(s, str):
             raise Unsupported("SymStr.const(%r)" % type(s))
-        return SymStr([Ch(ord(c)) for c in s])
+        r = SymStr([_ch_const(ord(c)) for c in s])
+        if len(_CONST_CACHE) < 200000:
+            _CONST_CACHE[s] = r
+        return r
 
     @staticmethod
     def var(name, length, alphabet, first_alphabet=None):
@@ -497,7 +524,27 @@ class SymStr(str):
             return True
         if len(self.cs) != len(o.cs):
             return False
-        return f_and([ch_eq(a, b) for a, b in zip(self.cs, o.cs)])
+        sym = []
+        for a, b in zip(self.cs, o.cs):
+            if a is b:
+                continue
+            ta, tb = a.t, b.t
+            if isinstance(ta, int) and isinstance(tb, int):
+                if ta != tb:
+                    return False
+                continue
+            sym.append((a, b))
+        if not sym:
+            return True
+        key = tuple((a.t if isinstance(a.t, int) else -a.t.get_id() - 1, b.t if isinstance(b.t, int) else -b.t.get_id() - 1)
+                    for a, b in sym)
+        hit = _EQ_CACHE.get(key)
+        if hit is not None:
+            return hit[0]
+        r = f_and([ch_eq(a, b) for a, b in sym])
+        if len(_EQ_CACHE) < 500000:
+            _EQ_CACHE[key] = (r, sym)   # keep the terms alive so that ids are not reused
+        return r
 
     def __eq__(self, o):
         if not isinstance(o, str):
